@@ -1250,7 +1250,7 @@ def run_program(sess, prog, on_step=None):
                 sri = e.pop("sri", None)
                 e["integrity"] = sess.u.sri_conc(sri) if sri else None
                 old = open(p, "rb").read() if os.path.exists(p) else b""
-                sess.env_set_bucket(st["key"], old + R.frame_bytes(e))
+                sess.env_set_bucket(st["key"], old + R.frame_bytes(e, st.get("style", 0)))
             else:
                 if os.path.isfile(p):
                     new = _damage(open(p, "rb").read(), st)
